@@ -64,7 +64,7 @@ def items_for(tier):
         for form, src in gen_re.wait_programs(p):
             items.append((p, form, src, True if tier == 'quick' else (i % 2 == 0 or form in ('bare', 'try'))))
             # the restart structure must survive optimisation: the bare and try forms are also compiled at -O3
-            if form in ('bare', 'try') and (tier != 'quick' or i % 2 == 0):
+            if form in ('bare', 'try', 'after-empty-catch') and (tier != 'quick' or i % 2 == 0):
                 items.append((p, form, src, False, ('-O3',)))
     return items, len(pats)
 
@@ -84,7 +84,7 @@ def main(tier, replay):
         print(json.dumps({'verdict': r['verdict'], 'violations': r['violations']}, indent=1, default=str)[:4000])
         return chk.EXIT_VIOLATION if r['violations'] else chk.EXIT_OK
     items, npat = items_for(tier)
-    run.bounds = {'K_bmc': K, 'K_reach': K, 'patterns': npat, 'forms': ['bare', 'try', 'prefix', 'try-prefix', 'catch'], 'programs': len(items), 'flags': list(FLAGS)}
+    run.bounds = {'K_bmc': K, 'K_reach': K, 'patterns': npat, 'forms': ['bare', 'try', 'prefix', 'try-prefix', 'catch', 'after-empty-catch'], 'programs': len(items), 'flags': list(FLAGS)}
     counters = {}
     byform = {}
     shown = set()
